@@ -8,6 +8,7 @@ require (
 	github.com/opencontainers/runtime-spec v1.1.0
 	github.com/opencontainers/runtime-tools v0.9.0
 	github.com/sirupsen/logrus v1.9.3
+	google.golang.org/grpc v1.57.1
 	google.golang.org/protobuf v1.34.1
 )
 
@@ -20,7 +21,6 @@ require (
 	github.com/tetratelabs/wazero v1.9.0 // indirect
 	golang.org/x/sys v0.21.0 // indirect
 	google.golang.org/genproto/googleapis/rpc v0.0.0-20230731190214-cbb8c96f2d6d // indirect
-	google.golang.org/grpc v1.57.1 // indirect
 )
 
 replace github.com/containerd/nri => /repo
